@@ -148,11 +148,41 @@ def gen_shared_names(rng, maxops=10):
             d = arbgen.gen_del(rng, w)
             if d:
                 ops.append(d)
+    if not ops:        # only deletes of objects that do not exist were drawn: an empty history is not a case
+        o = w.ident("vs", "d", "x")
+        ops.append("vs|d|x|%s|%d|%d|1|1|a.ex|/r>_|-|-" % (o["uid"], o["ts"], o["gen"]))
+    return arbgen.line(True, False, ops)
+
+
+def gen_validity_flip(rng):
+    """Two or three resources of any kinds contend for one host; then one of them (loser or holder) is edited into an invalid
+    spec and back, with nothing else happening in between — the only events that can refresh what was reported about it."""
+    w = arbgen.World(rng, tsvals=(1, 2, 3))
+    host = rng.choice(["a.ex", "b.ex"])
+
+    def op(kind, name, valid):
+        o = w.ident(kind, "d", name)
+        if kind == "ing":
+            return "ing|d|%s|%s|%d|%d|_|1|%s|r|0|%s>/x" % (name, o["uid"], o["ts"], o["gen"], valid, host)
+        if kind == "vs":
+            return "vs|d|%s|%s|%d|%d|1|%s|%s|/r>_|-|-" % (name, o["uid"], o["ts"], o["gen"], valid, host)
+        return "ts|d|%s|%s|%d|%d|1|%s|tls-passthrough|TLS_PASSTHROUGH|%s" % (name, o["uid"], o["ts"], o["gen"], valid, host)
+
+    objs = [(rng.choice(["ing", "vs", "ts"]), n) for n in rng.shuffle(["x", "y", "z"])[: 2 + rng.below(2)]]
+    ops = [op(k, n, "1") for k, n in objs]
+    for _ in range(1 + rng.below(3)):
+        k, n = rng.choice(objs)
+        ops.append(op(k, n, "0"))
+        if rng.chance(1, 4):
+            ops.append(op(k, n, "0"))
+        ops.append(op(k, n, "1"))
     return arbgen.line(True, False, ops)
 
 
 def gen(rng, tier):
     cases = []
+    for _ in range(150 if tier == "quick" else 1500):
+        cases.append(dict(line=gen_validity_flip(rng), tags=["validity-flip"]))
     for _ in range(200 if tier == "quick" else 2000):
         cases.append(dict(line=gen_shared_names(rng), tags=["shared-names"]))
     for _ in range(100 if tier == "quick" else 1000):
